@@ -575,7 +575,7 @@ theorem scalar_category_cannot_be_taken (s : Store) (l : LH) (cat : Option Str) 
   cases cat <;> simp [setCategory, catReserved, hl]
 
 /-- removing a loop's last item removes the loop: with one item left, the statement executed is DESTROY_LOOP_SQL -/
-theorem remove_last_item_removes_loop (d : Db) (cid ln : Nat) (k : Str) (hsz : d.loopSize cid k = some (ln, 1)) :
+theorem remove_last_item_sql (d : Db) (cid ln : Nat) (k : Str) (hsz : d.loopSize cid k = some (ln, 1)) :
     (if (d.loopSize cid k).map (·.2) == some 1 then (d.destroyLoop cid ln).1 else d.removeItem cid k) = d.deleteLoops (fun l => l.cid == cid && l.loopNum == ln) := by
   simp [hsz, Db.destroyLoop]
 
@@ -1073,7 +1073,15 @@ theorem C04_wok_step (w : World) (op : Op) (h : WOk w) (hin : inContract w op = 
   | itOpen l =>
     simp only [step]; split
     · exact h.itNone rfl rfl
-    · rename_i e s hl; exact h.itOpen l e s hl (okL_busy hin hl).1 (okL_busy hin hl).2 rfl rfl
+    · rename_i e s hl
+      have hin' : (w.cifBusy e.cif || e.h.validB s.db) = true := by
+        have : okLOpen w l = true := hin
+        unfold okLOpen at this; rw [hl] at this; exact this
+      cases hb : w.cifBusy e.cif with
+      | true => exact (h.itOpenBusy l e s hl hb rfl rfl).1
+      | false =>
+        rw [hb] at hin'
+        exact h.itOpen l e s hl hb (by simpa using hin') rfl rfl
   | itNext i =>
     simp only [step]; split
     · exact h
@@ -1174,15 +1182,45 @@ theorem C04_remove_item_in_wok (w : World) (h : WOk w) (c : Nat) (s : Store) (hs
     d'.loops = s.db.loops ∧ d'.frames = s.db.frames ∧ d'.blocks = s.db.blocks :=
   removeItem_good s.db (h.good c s hs).db x i j0 hx hi hj0 hne0
 
+/-- "removing a loop's last item removes the loop" — about the API function cif_container_remove_item (review gB, C04 S1): in a `Good`
+    store outside any transaction, removing through any container handle an item that is the only item of its loop returns CIF_OK and
+    leaves the documented model without exactly that loop; every other loop, with its items and packets, is what it was. -/
+theorem remove_last_item_removes_loop (s : Store) (hd : CH) (nm : Name) (hg : Good s.db) (hac : s.autocommit = true)
+    (hv : nm.valid = true) (x : ALoop) (hx : (absS s.db).itemLoop hd.id nm.key = some x) (hlast : x.items.length = 1) :
+    (Store.removeItem s hd (some nm)).2 = .ok () ∧
+    absS (Store.removeItem s hd (some nm)).1.db =
+      { absS s.db with loops := (absS s.db).loops.filter (fun y => !(y.cid == x.cid && y.num == x.num)) } := by
+  obtain ⟨h1, h2⟩ := removeItem_spec s hd (some nm) hg hac
+  have hs : specRemoveItem (absS s.db) hd (some nm) =
+      ({ absS s.db with loops := (absS s.db).loops.filter (fun y => !(y.cid == x.cid && y.num == x.num)) }, .ok ()) := by
+    unfold specRemoveItem
+    simp [hv, hx, hlast]
+  rw [hs] at h1 h2
+  exact ⟨h2, h1⟩
+
+/-- cif_loop_get_packets while an iterator is open on the same CIF (any loop): refused — no second iterator — and the world still
+    satisfies WOk: the open iterator is tied to its store, its transaction is open, nothing of the CIF changed (seeded change C06_6) -/
+theorem C04_second_get_packets_refused (w : World) (h : WOk w) (l : Nat) (e : LHE) (s : Store) (hl : w.liveL l = some (e, s))
+    (hb : w.cifBusy e.cif = true) :
+    (∃ c, (getPackets s e.h).2 = .error c) ∧ (getPackets s e.h).1.db = s.db ∧ (getPackets s e.h).1.txn = s.txn ∧
+    WOk (step w (.itOpen l)).1 := by
+  obtain ⟨d, ht⟩ := h.loud e.cif s (liveL_liveC hl) hb
+  obtain ⟨hc, htx, hdb⟩ := getPackets_refused s e.h d ht
+  refine ⟨hc, hdb, htx, ?_⟩
+  have hin : inContract w (.itOpen l) = true := by
+    show okLOpen w l = true
+    unfold okLOpen; rw [hl]; simp [hb]
+  exact C04_wok_step w (.itOpen l) h hin
+
 -- ---- one refinement theorem over histories (for the ops `specStep` covers so far) ---------------------------------------------------
 
 /-- C04_refines: in a world satisfying WOk, an op that keeps to the documented contract does to the documented model with object
     identities (`absW`, Spec/StoreSpec: every managed CIF as container tree + loops of (category, items, packets)) exactly what
-    `specStep` says, and returns the same result — with no further hypothesis.  Covered so far (`Op.covered`, 21 of the 31 ops): cif_create, cif_destroy,
+    `specStep` says, and returns the same result — with no further hypothesis.  Covered so far (`Op.covered`, 24 of the 31 ops): cif_create, cif_destroy,
     create_block, get_block, get_all_blocks, create_frame, get_frame, get_all_frames, get_code, is-block, container_destroy, prune,
     create_loop, get_category_loop, get_item_loop, loop_get_category, loop_set_category, loop_get_names, loop_add_item,
-    loop_add_packet, loop_destroy.  Not yet: get_all_loops, get_value, set_value, remove_item (each has its container-local
-    refinement theorem above) and the six iterator calls (C06). -/
+    loop_add_packet, loop_destroy, get_value, remove_item, get_all_loops (with the names of each loop).  Not yet: set_value
+    (container-local refinement theorems above: `C04_refines_set_value`, `C04_refines_set_value_new`) and the six iterator calls (C06). -/
 theorem C04_refines (w : World) (op : Op) (h : WOk w) (hin : inContract w op = true) (hc : op.covered = true) :
     specStep (absW w) op = some (absW (step w op).1, (step w op).2) :=
   specStep_refines w op h hin hc
